@@ -1,8 +1,8 @@
 SPECIFICATION Spec
 CONSTANTS
   MaxChunks = 3
-  Kinds = {"var", "vargroup", "func", "opmethod", "stmt", "flit", "flitres", "conv"}
-  Variants = {"plain", "lead", "trail", "inner"}
-  FuncExprIsDecl = TRUE
+  Kinds = {"vargroup", "func", "opmethod", "stmt", "flit", "flitres"}
+  Variants = {"plain", "lead", "trail"}
+  FuncExprIsDecl = FALSE
 INVARIANTS WantIsStatement CodeKeepsBytes SplitSane CodeMeetsStatement Export
 PROPERTY Terminates
